@@ -6,6 +6,8 @@ _translate_dict_to_dict) -> Dosini.parse_component -> FlowIR.convert_component_t
 FlowIRConcrete.get_component_configuration on both sides.  No configparser / disk.
 """
 import copy
+import shutil
+import tempfile
 
 import experiment.model.errors as errors
 from experiment.model.frontends.dosini import Dosini
@@ -152,7 +154,76 @@ def make_body(pairs):
     return body
 
 
+def body_disk(ctx):
+    """The on-disk half: FlowIRConcrete.instance() -> Dosini.dump(is_instance=True) -> Dosini.load_from_directory ->
+    FlowIRConcrete, compared component by component (and environments / status / output sections)."""
+    n_stages = ctx.choice('number_of_stages', [1, 2, 3, 11, 12])
+    backend = ctx.choice('backend', ['local', 'lsf'])
+    opt = ctx.choice('option', ['none', 'workflowAttributes.maxRestarts', 'workflowAttributes.repeatInterval',
+                                'resourceRequest.numberProcesses', 'command.resolvePath', 'workflowAttributes.shutdownOn'])
+    with_env = ctx.flag('named_environment')
+    with_stage_vars = ctx.flag('stage_variables')
+    comps = []
+    for st in range(n_stages):
+        c = {'stage': st, 'name': 'comp%s' % chr(ord('a') + st), 'command': {'executable': 'bin/run', 'arguments': '-s %(label)s %(gv)s'},
+             'variables': {'label': 'stage-%d' % st}, 'resourceManager': {'config': {'backend': backend}}}
+        if st > 0:
+            c['references'] = ['stage%d.comp%s:ref' % (st - 1, chr(ord('a') + st - 1))]
+            c['command']['arguments'] += ' stage%d.comp%s:ref' % (st - 1, chr(ord('a') + st - 1))
+        if with_env:
+            c['command']['environment'] = 'myenv'
+        if opt != 'none' and st == n_stages - 1:
+            set_option(c, opt, ctx.choice('value', OPTIONS[opt]))
+        comps.append(c)
+    doc = {'components': comps, 'variables': {'default': {'global': {'gv': 'global-value'}, 'stages': {}}},
+           'status-report': {st: {'stage-weight': round(1.0 / n_stages, 3) if n_stages in (1, 2) else 0.0} for st in range(n_stages)}}
+    if with_stage_vars:
+        doc['variables']['default']['stages'] = {st: {'sv': 'stage-var-%d' % st} for st in range(n_stages)}
+        for c in comps:
+            c['command']['arguments'] += ' %(sv)s'
+    if with_env:
+        doc['environments'] = {'default': {'myenv': {'A': 'b', 'DEFAULTS': 'PATH'}}}
+    original = FlowIRConcrete(doc, 'default', {})
+    inst = original.instance(ignore_errors=True)
+    d = tempfile.mkdtemp(prefix='verif-c19-')
+    try:
+        Dosini().dump(inst, d, is_instance=True)
+        errs = []
+        loaded = Dosini().load_from_directory(d, [], {}, is_instance=True, out_errors=errs)
+    finally:
+        shutil.rmtree(d, ignore_errors=True)
+    detail = {'stages': n_stages, 'backend': backend, 'option': opt, 'environment': with_env, 'stage_variables': with_stage_vars}
+    ctx.check(not errs, 'the dumped instance loads without errors', (detail, [str(e)[:200] for e in errs]))
+    again = FlowIRConcrete(loaded, 'default', {})
+    ids_a = sorted(original.get_component_identifiers(True))
+    ids_b = sorted(again.get_component_identifiers(True))
+    ctx.check(ids_a == ids_b, 'the reloaded description has the same components', (detail, ids_a, ids_b))
+    for cid in ids_a:
+        a = original.get_component_configuration(cid, raw=False, include_default=True, is_primitive=True)
+        b = again.get_component_configuration(cid, raw=False, include_default=True, is_primitive=True)
+        diffs = {}
+        for sect in ('command', 'references', 'workflowAttributes', 'resourceRequest', 'resourceManager', 'executors'):
+            if a.get(sect) != b.get(sect):
+                diffs[sect] = (a.get(sect), b.get(sect))
+        va = {k: str(v) for k, v in a.get('variables', {}).items()}
+        vb = {k: str(v) for k, v in b.get('variables', {}).items()}
+        missing = {k: (va[k], vb.get(k)) for k in va if vb.get(k) != va[k]}
+        ctx.check(not diffs and not missing, 'every component resolves to the same configuration and variables after the reload',
+                  (detail, cid, diffs, missing))
+    if with_env:
+        ctx.check(again.get_environment('myenv') == original.get_environment('myenv'), 'environments survive the reload', detail)
+    sa = {k: float(v.get('stage-weight', 0)) for k, v in original.get_status().items()}
+    sb = {k: float(v.get('stage-weight', 0)) for k, v in again.get_status().items()}
+    ctx.check(sa == sb, 'the status section survives the reload', (detail, sa, sb))
+    ctx.witness('disk_roundtrip_compared')
+    if n_stages >= 11:
+        ctx.witness('two_digit_stage_index')
+    return (n_stages, opt)
+
+
 def factory(param):
+    if param.get('name') == 'disk':
+        return body_disk
     return make_body(param['pairs'])
 
 
@@ -168,21 +239,21 @@ def signature(param, assignment, message, detail):
 
 def main(tier, seed, only=None):
     rep = Report('C19', tier, seed)
-    rep.functions = ['Dosini._flowir_component_to_dict', '_comp_command_to_dict', '_comp_executors_to_str', '_comp_resource_manager_to_str',
+    rep.functions = ['Dosini.dump / _dump_components / _dump_status / configuration_for_stage', 'Dosini.load_from_directory / _discover_stages / parse_stage / parse_status / parse_environment_dicts', 'FlowIRConcrete.instance', 'Dosini._flowir_component_to_dict', '_comp_command_to_dict', '_comp_executors_to_str', '_comp_resource_manager_to_str',
                      '_comp_resource_request_to_dict', '_comp_workflow_attributes_to_dict', '_translate_dict_to_dict',
                      'Dosini.parse_component', 'Dosini.validate_component', 'FlowIR.convert_component_types',
                      'FlowIRConcrete.get_component_configuration']
     pairs = True
     rep.bounds = {'options': '%d component options (%s), values from small representative sets' % (len(OPTIONS), 'one at a time' if not pairs
                              else 'one at a time and all pairs within a section'),
-                  'backends': ['local', 'simulator', 'lsf', 'kubernetes']}
-    rep.outside = ['the docker backend (its options have no DOSINI spelling)', 'stage/global variable files, environments, status and output sections', 'everything that goes through configparser and the '
-                   'disk (Dosini.dump, load_from_directory, DOSINIExperimentConfiguration)', 'combinations of more than two options']
+                  'backends': ['local', 'simulator', 'lsf', 'kubernetes'],
+                  'disk round trip': 'Dosini.dump(is_instance=True) + load_from_directory on a scratch directory: 1, 2, 3, 11 or 12 stages, one optional option, named environment, stage variables, status weights'}
+    rep.outside = ['the docker backend (its options have no DOSINI spelling)', 'DOSINIExperimentConfiguration and non-instance packages (variables.conf, platform files)', 'output sections', 'combinations of more than two options']
     rep.assumptions = ['configparser stores str(value) for every option (modelled by str())']
     rep.explanation = ('bounded symbolic execution (symx/z3) over the backend, the option(s) present and their values; the real flatten and '
                        'parse functions run on every path and both sides are resolved with the real FlowIRConcrete')
-    rep.required_witnesses = ['roundtrip_compared'] + (['pair_compared'] if pairs else [])
-    s = explore_parallel('dosini-roundtrip', factory, [{'pairs': pairs, 'name': 'pairs' if pairs else 'single'}],
+    rep.required_witnesses = ['roundtrip_compared', 'disk_roundtrip_compared', 'two_digit_stage_index'] + (['pair_compared'] if pairs else [])
+    s = explore_parallel('dosini-roundtrip', factory, [{'pairs': pairs, 'name': 'pairs' if pairs else 'single'}, {'name': 'disk'}],
                          signature=signature, seed=seed, chunk=50, validate=False)
     rep.add(s)
     return rep.finish()
